@@ -183,6 +183,8 @@ def strat_tif(tier):
         "lo": st.sampled_from([0.0, -2.0, 100.0]), "span": st.sampled_from([1.0, 0.01, 255.0]), "name": st.sampled_from([None, "holo", "my image"]),
         "channels": st.sampled_from([None, None, ["red", "green", "blue"]]),
         "meta": _meta(), "how": st.sampled_from(["hp.save", "save_image8", "save_image16", "save_image_float"]),
+        # explicit (min, max) scaling interval for save_image, wider than the data by these fractions of its range
+        "scaling": st.one_of(st.none(), st.none(), st.tuples(st.floats(0.0, 2.0), st.floats(0.0, 2.0)).map(list)),
     })
 
 
@@ -201,14 +203,22 @@ def run_tif(case):
         try:
             with warnings.catch_warnings():
                 warnings.simplefilter("ignore")
+                skw = {}
+                widen = 1.0
+                if case.get("scaling") is not None and case["how"] != "hp.save":
+                    lo_, hi_ = float(im.values.min()), float(im.values.max())
+                    span = max(hi_ - lo_, 1e-30)
+                    skw = {"scaling": (lo_ - case["scaling"][0] * span, hi_ + case["scaling"][1] * span)}
+                    widen = 1.0 + case["scaling"][0] + case["scaling"][1]
+                    labels.append("explicit_scaling")
                 if case["how"] == "hp.save":
                     hp.save(path, im); bits = 8
                 elif case["how"] == "save_image8":
-                    save_image(path, im, depth=8); bits = 8
+                    save_image(path, im, depth=8, **skw); bits = 8
                 elif case["how"] == "save_image16":
-                    save_image(path, im, depth=16); bits = 15
+                    save_image(path, im, depth=16, **skw); bits = 15
                 else:
-                    save_image(path, im, depth="float"); bits = None
+                    save_image(path, im, depth="float", **skw); bits = None
                 back = hp.load(path)
         except Exception as e:
             return Outcome(failure("tiff_exception", "%s during TIFF round trip (%s): %s" % (type(e).__name__, case["how"], str(e)[:300]), exc=type(e).__name__, how=case["how"]), True, labels)
@@ -233,12 +243,14 @@ def run_tif(case):
         return Outcome(failure("tiff_shape", "shape %r -> %r" % (a.shape, b.shape)), True, labels)
     rng_ = float(a.max() - a.min())
     if bits is None:
-        tol = 1e-6 * max(rng_, 1e-30)
+        tol = 1e-6 * max(rng_, 1e-30) * widen
     else:
-        tol = rng_ / (2 ** bits - 1) * 0.51 + 1e-12 * abs(a).max()
+        # one quantization step of the scaling interval (the data's own range unless an interval was given)
+        tol = rng_ * widen / (2 ** bits - 1) * 0.51 + 1e-12 * abs(a).max()
     err = float(np.abs(a - b).max())
     if err > tol * TOLX:
-        return Outcome(failure("tiff_values", "values differ by %.4g after %s (range %.4g, allowed quantization %.4g)" % (err, case["how"], rng_, tol), how=case["how"]), True, labels)
+        return Outcome(failure("tiff_values", "values differ by %.4g after %s%s (range %.4g, allowed quantization %.4g)"
+                               % (err, case["how"], " with an explicit scaling interval" if widen > 1.0 else "", rng_, tol), how=case["how"], explicit_scaling=widen > 1.0), True, labels)
     for cn in ("x", "y"):
         if not np.allclose(back.coords[cn].values, im.coords[cn].values - im.coords[cn].values[0], rtol=1e-12, atol=0):
             return Outcome(failure("tiff_spacing", "pixel spacing along %s not preserved: %r vs %r" % (cn, back.coords[cn].values[:3].tolist(), im.coords[cn].values[:3].tolist())), True, labels)
